@@ -74,7 +74,7 @@ from types import TracebackType
 from typing import BinaryIO
 
 from dulwich.object_format import SHA1
-from dulwich.objects import ObjectID
+from dulwich.objects import ZERO_SHA, ObjectID
 from dulwich.refs import (
     SYMREF,
     Ref,
@@ -1179,9 +1179,11 @@ class ReftableRefsContainer(RefsContainer):
         except KeyError:
             current = None
 
-        old_ref_bytes = bytes(old_ref) if old_ref else None
-        if current != old_ref_bytes:
-            return False
+        # old_ref None means "set unconditionally" (RefsContainer contract);
+        # a missing ref compares equal to the zero id, as in the other backends
+        if old_ref is not None:
+            if (current if current is not None else ZERO_SHA) != bytes(old_ref):
+                return False
 
         # Update ref
         self._write_ref_update(bytes(name), REF_VALUE_REF, bytes(new_ref))
@@ -1222,9 +1224,10 @@ class ReftableRefsContainer(RefsContainer):
         except KeyError:
             current = None
 
-        old_ref_bytes = bytes(old_ref) if old_ref else None
-        if current != old_ref_bytes:
-            return False
+        # old_ref None means "delete unconditionally" (RefsContainer contract)
+        if old_ref is not None:
+            if (current if current is not None else ZERO_SHA) != bytes(old_ref):
+                return False
 
         self._write_ref_update(bytes(name), REF_VALUE_DELETE, b"")
         return True
